@@ -248,7 +248,7 @@ theorem sym_body_documented :
       ["if isinstance(symmetry,str):",
        ">nfold=int(re.findall('\\\\d+',symmetry)[-1])",
        "else:",
-       ">if isinstance(symmetry,(int,float)):",
+       ">if isinstance(symmetry,(int,float,np.integer,np.floating)):",
        ">>nfold=int(symmetry)",
        ">else:",
        ">>Raise:ValueError",
